@@ -1,5 +1,6 @@
 CONSTANT MaxExt = 3
 CONSTANT MaxSG = 1
+CONSTANT MaxUx = 1
 CONSTANT MaxMeta = 1
 CONSTANT MaxFeed = 3
 CONSTANT MaxCache = 1
